@@ -254,6 +254,16 @@ func (c05) Exec(c Case) [][][]string {
 	hist := streamsql.New(streamsql.WithDiscardLog())
 	defer hist.Stop()
 	execErr := hist.Execute(sql)
+	// the instance that answers through EmitSync has one synchronous sink and no other: what the sink is handed during
+	// a call is the row the call returns (sync sinks run inline, so the log is complete when EmitSync returns)
+	var histSink [][]map[string]interface{}
+	if execErr == nil {
+		hist.AddSyncSink(func(b []map[string]interface{}) {
+			cp := make([]map[string]interface{}, len(b))
+			copy(cp, b)
+			histSink = append(histSink, cp)
+		})
+	}
 	var out [][][]string
 	var rows []map[string]interface{}
 	passed := 0
@@ -265,9 +275,16 @@ func (c05) Exec(c Case) [][][]string {
 				continue
 			}
 			rows = append(rows, c05DecRow(op[1:]))
+			histSink = nil
 			r1 := c05SyncRes(hist, c05DecRow(op[1:]))
 			if r1[0] != "none" {
 				passed++
+			}
+			ss := []string{"ssink", "none"}
+			if len(histSink) == 1 && len(histSink[0]) == 1 {
+				ss = append([]string{"ssink"}, c05EncRow(histSink[0][0])...)
+			} else if len(histSink) > 0 {
+				ss = []string{"ssink", "odd", strconv.Itoa(len(histSink))}
 			}
 			fresh := streamsql.New(streamsql.WithDiscardLog())
 			var r2 []string
@@ -277,7 +294,7 @@ func (c05) Exec(c Case) [][][]string {
 				r2 = c05SyncRes(fresh, c05DecRow(op[1:]))
 			}
 			fresh.Stop()
-			out = append(out, [][]string{append([]string{"sync"}, r1...), append([]string{"alone"}, r2...)})
+			out = append(out, [][]string{append([]string{"sync"}, r1...), append([]string{"alone"}, r2...), ss})
 		case "async", "full":
 			if execErr != nil {
 				out = append(out, [][]string{{"execerr"}})
